@@ -94,7 +94,7 @@ def run(tier, seed, t0):
     for shape, nm in scen:
         try:
             gethash_scenario(e3, shape, nm)
-        except sym.Unsupported as ex:
+        except _e3.ENC_ERRORS as ex:
             e3.error(nm, "MIR->SMT encoding of Key::get_hash / Key::clone", ex)
     obs = list(e3.res.obligations)
     obs += kani.run_group("core", HARNESSES, tier, hooks=True, stubbing=True)
